@@ -290,6 +290,23 @@ class World:
             if isinstance(e, asyncio.CancelledError):
                 raise
 
+    # -- a WebSocket caller: handshake, then (on "ws_close") ws.close()
+    async def _ws_client(self, t, cfg):
+        import aiohttp
+        try:
+            async with self.session.ws_connect("http://origin.test/ws",
+                                               timeout=aiohttp.ClientWSTimeout(ws_close=cfg["ws_close"] / TPS)) as ws:
+                self.head_at[t] = self.tick()
+                await self.gate[t].wait()
+                self.ws_close_started = self.tick()
+                ok = await ws.close()
+                self.ws_result = {"returned": ok, "close_code": ws.close_code, "closed": ws.closed}
+            self.outcome[t] = ("ok", self.tick())
+        except BaseException as e:  # noqa
+            self.outcome[t] = (classify(e), self.tick())
+            if isinstance(e, asyncio.CancelledError):
+                raise
+
     # -- stimuli
     def apply(self, st):
         op = st[0]
@@ -328,6 +345,30 @@ class World:
             self.deliver(t, next_cut(self.sent.get(t, 0), kind))
         elif op == "bytes":                       # stall sweep: deliver up to an absolute offset
             self.deliver(st[1], st[2])
+        elif op == "ws_start":
+            t, cfg = st[1], st[2]
+            self.cfg[t] = cfg
+            self.gate[t] = asyncio.Event()
+            self.started_at[t] = self.tick()
+            task = self.loop.create_task(self._ws_client(t, cfg))
+            self.tasks[t] = task
+            self.tid_of[task] = t
+        elif op == "ws_accept":
+            import base64
+            import hashlib
+            import re
+            tr = self.tr_of.get(st[1])
+            if tr is not None and not tr.closed:
+                m = re.search(rb"Sec-WebSocket-Key: ([^\r]+)\r\n", bytes(tr.buf))
+                acc = base64.b64encode(hashlib.sha1(m.group(1) + b"258EAFA5-E914-47DA-95CA-C5AB0DC85B11").digest())
+                tr.protocol.data_received(b"HTTP/1.1 101 Switching Protocols\r\nUpgrade: websocket\r\nConnection: upgrade\r\n"
+                                          b"Sec-WebSocket-Accept: " + acc + b"\r\n\r\n")
+        elif op == "ws_frame":                      # server frame: text "hi" / close 1000
+            tr = self.tr_of.get(st[1])
+            if tr is not None and not tr.closed and tr.protocol is not None:
+                tr.protocol.data_received(b"\x81\x02hi" if st[2] == "text" else b"\x88\x02\x03\xe8")
+        elif op == "ws_close":
+            self.gate[st[1]].set()
         elif op == "read":
             t = st[1]
             if t in self.gate and not self.gate[t].is_set():
@@ -625,7 +666,7 @@ class Oracle:
                     P.append(f"request {t} was cancelled although nobody cancelled it")
             elif kind != "ok":
                 P.append(f"request {t} failed with {kind} (no peer error was injected)")
-            elif w.bodies.get(t) != PLAIN:
+            elif "ws_close" not in cfg and w.bodies.get(t) != PLAIN:
                 P.append(f"request {t} completed with a wrong body ({len(w.bodies.get(t) or b'')} bytes)")
         # ---- residue
         c = w.connector
@@ -1100,6 +1141,100 @@ def suite_cancel_sweep(ctx):
     ctx.close_suite("cancel_sweep", ran)
 
 
+WS_BASE = [["ws_start", 0, {"ws_close": 40}], ["dns"], ["conn", 0], ["adv", 1], ["ws_accept", 0], ["adv", 2], ["ws_close", 0], ["adv", 200]]
+
+
+def run_ws_close(T, offset, peer, cancel_k=None):
+    """WebSocket close handshake: the peer never answers (stall), answers with text frames only for a while, or
+    the caller is cancelled before loop iteration cancel_k (counted from the close request)."""
+    w = World(limit=1, offset=offset)
+    problems = []
+    landed = {"at": None}
+    closed = False
+    try:
+        hist = [["ws_start", 0, {"ws_close": T}], ["dns"], ["conn", 0], ["adv", 1], ["ws_accept", 0], ["adv", 2]]
+        for st in hist:
+            w.apply(st)
+        if 0 not in w.head_at:
+            problems.append(f"WebSocket handshake did not complete: {w.outcome.get(0)}")
+        if cancel_k is not None:
+            start_iter = w.iterations
+
+            def hook(i):
+                if landed["at"] is None and i - start_iter >= cancel_k and not w.tasks[0].done():
+                    landed["at"] = w.tick()
+                    w.cancelled.add(0)
+                    w.tasks[0].cancel()
+            w.iter_hook = hook
+        w.apply(["ws_close", 0])
+        t_close = w.tick()
+        if peer == "text":
+            w.apply(["adv", 3])
+            w.apply(["ws_frame", 0, "text"])       # data, but no close frame: the close timeout restarts per message
+            t_last = w.tick()
+        else:
+            t_last = t_close
+        w.apply(["adv", T + 40])
+        w.iter_hook = None
+        snap = w.snapshot()
+        out = w.outcome.get(0)
+        obs = {"outcome": list(out) if out else None, "result": getattr(w, "ws_result", None), "cancel_at": landed["at"]}
+        tr = w.tr_of.get(0)
+        if cancel_k is None or landed["at"] is None:
+            if out is None or out[0] != "ok":
+                problems.append(f"ws.close() did not return although ws_close={T} ticks elapsed: {out}")
+            elif out[1] > t_last + T:
+                problems.append(f"ws.close() returned at tick {out[1]}, later than the ws_close bound (tick {t_last + T})")
+            elif out[1] != t_last + T:
+                obs["early"] = True
+            if getattr(w, "ws_result", None) and w.ws_result["close_code"] != 1006:
+                problems.append(f"close code {w.ws_result['close_code']} after a close handshake that timed out (1006 expected)")
+        else:
+            if out is None or out[0] != "cancelled":
+                problems.append(f"cancelled ws.close() ended as {out}")
+        if tr is None or not tr.closed:
+            problems.append("the WebSocket transport is still open after close() timed out / was cancelled")
+        if snap["acq"] or snap["idle"] or snap["timers"] or snap["other_bg"] or snap["writers"] or snap["loop_exceptions"]:
+            problems.append(f"residue after WebSocket close: {brief(snap)} {snap['other_bg']} {snap['loop_exceptions']}")
+        orc = Oracle(w)
+        closed = True
+        orc.finish()
+        problems += orc.problems
+        return obs, problems
+    finally:
+        if not closed:
+            w.close()
+
+
+def suite_ws_close(ctx):
+    ran = 0
+    obs = None
+    for T in (6, 40, 80, 96):
+        for off in (0, 5, 15):
+            for peer in ("silent", "text"):
+                obs, problems = run_ws_close(T, off, peer)
+                ran += 1
+                ctx.case(("ws", T, off, peer, json.dumps(obs, sort_keys=True)), nontrivial=True)
+                ctx.count("ws_close:" + peer)
+                if obs.get("early"):
+                    ctx.disagreement("ws_close", {"suite": "ws_close", "T": T, "offset": off, "peer": peer}, "returns exactly at the bound", obs["outcome"])
+                for p in problems[:3]:
+                    ctx.violation({"suite": "ws_close", "T": T, "offset": off, "peer": peer, "cancel_k": None}, p)
+    k = 0
+    while True:
+        obs, problems = run_ws_close(40, 3, "silent", cancel_k=k)
+        if obs["cancel_at"] is None:
+            break
+        ran += 1
+        ctx.case(("ws-cancel", k, json.dumps(obs, sort_keys=True)), nontrivial=True)
+        ctx.count("ws_close:cancel")
+        for p in problems[:3]:
+            ctx.violation({"suite": "ws_close", "T": 40, "offset": 3, "peer": "silent", "cancel_k": k}, p)
+        k += 1
+    ctx.sample({"suite": "ws_close", "last": obs})
+    ctx.close_suite("ws_close", ran)
+
+
 def suite_formulas(ctx, exe):
     """The generated rounding formulas against the real helpers on a grid (function correspondence)."""
     import aiohttp
@@ -1173,6 +1308,7 @@ def run(ctx):
     suite_histories(ctx, exe)
     suite_stall_sweep(ctx)
     suite_cancel_sweep(ctx)
+    suite_ws_close(ctx)
 
 
 def replay(ctx, case):
@@ -1189,6 +1325,9 @@ def replay(ctx, case):
     if suite == "cancel_sweep":
         at, total, obs, problems = run_cancel(CANCEL_BASES[case["base"]], case["k"])
         return {"violates": bool(problems), "why": problems[:5], "impl": obs, "cancel_landed_at_tick": at}
+    if suite == "ws_close":
+        obs, problems = run_ws_close(case["T"], case["offset"], case["peer"], case.get("cancel_k"))
+        return {"violates": bool(problems), "why": problems[:5], "impl": obs}
     return {"violates": None, "note": "unknown suite"}
 
 
